@@ -72,7 +72,7 @@ impl Input {
     }
 }
 
-pub const BIG_CLASSES: [&str; 8] = ["many-words", "many-numbers", "hyphen-chain", "compound", "dash-run", "space-run", "apostrophes", "digits-run"];
+pub const BIG_CLASSES: [&str; 10] = ["many-words", "many-numbers", "hyphen-chain", "compound", "dash-run", "space-run", "apostrophes", "digits-run", "zero-run", "scale-run"];
 
 fn big_input(code: &str, class: &str, size: usize) -> String {
     let info = spell::info(code);
@@ -100,6 +100,12 @@ fn big_input(code: &str, class: &str, size: usize) -> String {
                 i += 1;
             }
             s
+        }
+        // one number made of `size` dictated zeros and a digit; one phrase of `size` scale words
+        "zero-run" => format!("{} {}", vec![info.zero; size].join(" "), unit),
+        "scale-run" => {
+            let scale = spell::cardinal(code, 1000).split(' ').last().unwrap_or("").to_string();
+            format!("{} {}", unit, vec![scale.as_str(); size].join(" "))
         }
         "dash-run" => "-".repeat(size),
         "space-run" => " \t\u{a0}".repeat(size / 3 + 1),
